@@ -21,7 +21,7 @@ struct TpdoModel {
 struct Emit { uint64_t tick; uint32_t id; uint8_t dlc; uint8_t d[8]; bool operator<(const Emit &o) const { if (tick != o.tick) return tick < o.tick; if (id != o.id) return id < o.id; if (dlc != o.dlc) return dlc < o.dlc; return memcmp(d, o.d, 8) < 0; } bool operator==(const Emit &o) const { return tick == o.tick && id == o.id && dlc == o.dlc && !memcmp(d, o.d, 8); } };
 
 struct TpdoRun : NodeEnv {
-    std::vector<int16_t> appTmr; bool unjudged = false;
+    std::vector<int16_t> appTmr; bool unjudged = false; bool giveUp = false;
     std::vector<int> retrig = std::vector<int>(CO_TPDO_N, 0), retrigReal = std::vector<int>(CO_TPDO_N, 0);   // re-triggers left for the COPdoTransmit callback (model / real)
     int m = M_PREOP; std::vector<TpdoModel> T; std::vector<ObjDef> objs; std::vector<Emit> exp; std::map<uint32_t, uint32_t> val;   // model copy of the mapped objects' values
     uint32_t &mv(uint16_t idx, uint8_t sub) { return val[(uint32_t)idx << 8 | sub]; }
@@ -143,6 +143,12 @@ struct TpdoRun : NodeEnv {
             uint32_t nv = makeValid ? (t.cobid & ~0x80000000u) : (t.cobid | 0x80000000u); uint32_t ab = sdoWrite((uint16_t)(0x1800 + n), 1, nv, 4); if (ab) { fail("tpdo/cobid-write-refused", "valid-bit toggle refused with " + hex(ab)); return; }
             t.cobid = nv; if (m == M_OP) { activate(t, n); cov.hit(makeValid ? "revalidate-in-op" : "invalidate-in-op"); nontrivial = true; }
         }
+        else if (k == "badwr") {   // a parameter write that CiA 301 forbids while the PDO is valid (other CAN-ID, other transmission type, extended frame): when it is refused, the running TPDO must not notice it
+            if (m != M_PREOP && m != M_OP) return; int n = (int)(o.arg(0) % CO_TPDO_N); TpdoModel &t = T[(size_t)n]; if (!t.exists || !t.valid()) return; int kind = (int)(o.arg(1) % 3);
+            uint32_t ab = kind == 0 ? sdoWrite((uint16_t)(0x1800 + n), 1, (t.cobid & ~0x7FFu) | ((t.cobid + 1 + (uint32_t)o.arg(2) % 5) & 0x7FF), 4) : kind == 1 ? sdoWrite((uint16_t)(0x1800 + n), 2, t.type <= 240 ? (t.type == 1 ? 2 : 1) : (t.type == 254 ? 255 : 254), 1) : sdoWrite((uint16_t)(0x1800 + n), 1, t.cobid | 0x20000000u, 4);
+            if (ab == 0) { giveUp = true; cov.hit("forbidden-parameter-write-accepted-(not-judged-here)"); return; }   // accepting it is C14's business; this model cannot follow
+            cov.hit("refused-parameter-write-on-running-tpdo"); if (m == M_OP && (t.inhibited || t.pending || t.syncCnt > 0 || t.evOn)) { cov.hit("refused-parameter-write-while-inhibit-event-or-sync-count-in-progress"); nontrivial = true; }
+        }
         else if (k == "evtime") {
             if (m != M_PREOP && m != M_OP) return; int n = (int)(o.arg(0) % CO_TPDO_N); TpdoModel &t = T[(size_t)n]; if (!t.exists || t.type <= 240) return; uint16_t val16 = (uint16_t)o.arg(1);
             uint32_t ab = sdoWrite((uint16_t)(0x1800 + n), 5, val16, 2); if (ab) { fail("tpdo/evtime-write-refused", "event time write refused with " + hex(ab)); return; }
@@ -174,7 +180,7 @@ struct TpdoRun : NodeEnv {
     }
     Verdict run() {
         build();
-        for (opi = 0; opi < (int)plan.ops.size() && v.ok; opi++) {
+        for (opi = 0; opi < (int)plan.ops.size() && v.ok && !giveUp; opi++) {
             const Op &o = plan.ops[(size_t)opi]; w.opIndex = (uint32_t)opi; cov.ops++;
             op(o);
             if (o.k == "obj" || o.k == "tpdo") continue;
@@ -208,7 +214,7 @@ Plan gen_tpdo(Rng &r, bool thorough) {
         else if (c < 17) { if (r.chance(1, 12)) p.ops.push_back(Op("sync", {r.chance(1, 2) ? r.range(250, 600) : r.range(2, 1100)})); else p.ops.push_back(Op("sync")); }
         else if (c == 17) { std::vector<uint8_t> b; for (int j = 0; j < 8; j++) b.push_back(r.byte()); p.ops.push_back(Op("rpdo", {}, b)); }
         else if (c == 18) p.ops.push_back(r.chance(1, 3) ? Op("sendfail", {r.range(1, 3)}) : Op("nmt", {r.pick<int64_t>({1, 1, 2, 128, 130})}));
-        else if (c < 21) p.ops.push_back(Op("cobid", {(int64_t)r.below(4), (int64_t)r.below(2)}));
+        else if (c < 21) p.ops.push_back(r.chance(1, 4) ? Op("badwr", {(int64_t)r.below(4), (int64_t)r.below(3), (int64_t)r.below(5)}) : Op("cobid", {(int64_t)r.below(4), (int64_t)r.below(2)}));
         else if (c < 23) p.ops.push_back(Op("evtime", {(int64_t)r.below(4), r.chance(1, 4) ? 0 : r.pick<int64_t>({1, 2, 3, 5, 10, 20}) * u}));
         else p.ops.push_back(Op("inhtime", {(int64_t)r.below(4), r.pick<int64_t>({0, 1, 5, 10}) * u * 10}));
     }
